@@ -117,7 +117,27 @@ func VPH_C05_step() {
 	t := vpArbitraryTable(3, 2)
 	fm := t.fm
 	n := len(t.ids)
-	switch vpChoose("op", 0, 2) {
+	switch vpChoose("op", 0, 3) {
+	case 3: // ReleaseAll (Unexport / Close), then serving continues
+		vpReach("releaseall-then-allocate")
+		fm.ReleaseAll()
+		vpAssert(fm.Count() == 0, "releaseall-empties-the-table")
+		a := &NFSNode{path: "/after1", attrs: &NFSAttrs{Mode: 0644}}
+		b := &NFSNode{path: "/after2", attrs: &NFSAttrs{Mode: 0644}}
+		ha := fm.Allocate(a)
+		hb := fm.Allocate(b)
+		vpAssert(ha != hb, "handles-issued-after-releaseall-are-distinct")
+		fa, la := fm.Get(ha)
+		fb, lb := fm.Get(hb)
+		vpAssert(lb, "handle-issued-after-releaseall-is-live")
+		vpAssert(fb == absfs.File(b), "handle-issued-after-releaseall-resolves-to-its-object")
+		// the first of the two is still there unless the maximum is one (the second allocation then evicts it)
+		if la {
+			vpAssert(fa == absfs.File(a), "earlier-handle-after-releaseall-still-names-its-object")
+		} else {
+			vpAssert(t.effMax == 1, "earlier-handle-after-releaseall-evicted-only-at-maximum-one")
+		}
+		vpAssert(fm.Count() <= t.effMax, "count-within-maximum")
 	case 0: // a path not in the table
 		vpReach("allocate-new")
 		node := &NFSNode{path: "/new", attrs: &NFSAttrs{Mode: 0644}}
@@ -334,6 +354,44 @@ func VPH_C05_mnt() {
 func VPH_C06_step() {
 	t := vpArbitraryTable(3, 2)
 	fm := t.fm
+	// optionally a Release of an arbitrary value first: a live handle, one already released or
+	// evicted, or one never issued (a Release of something not tracked changes nothing)
+	if vpBool("release-first") {
+		vpReach("release-then-allocate")
+		h := vpU64("released")
+		_, wasLive := fm.Get(h)
+		freeBefore := fm.freeHandles.Len()
+		fm.Release(h)
+		if !wasLive {
+			vpAssert(fm.freeHandles.Len() == freeBefore, "release-of-untracked-value-changes-nothing")
+			vpAssert(fm.Count() == len(t.ids), "release-of-untracked-value-keeps-the-table")
+		}
+		t.invariant("ri-after-release")
+		// continue from the table as it is now
+		var ids []uint64
+		var paths []string
+		for k, id := range t.ids {
+			if id != h {
+				ids = append(ids, id)
+				paths = append(paths, vpTablePaths[k])
+			}
+		}
+		if wasLive {
+			t.free = append(t.free, h)
+		}
+		node := &NFSNode{path: "/new", attrs: &NFSAttrs{Mode: 0644}}
+		got := fm.Allocate(node)
+		for k, id := range ids {
+			f, live := fm.Get(id)
+			if live {
+				nd, ok := f.(*NFSNode)
+				vpAssert(vpAnd(ok, nd.path == paths[k]), "live-id-keeps-its-path")
+			}
+			vpAssert(got != id, "no-live-id-reissued")
+		}
+		t.invariant("ri")
+		return
+	}
 	node := &NFSNode{path: "/new", attrs: &NFSAttrs{Mode: 0644}}
 	usedFree := len(t.free) > 0
 	got := fm.Allocate(node)
